@@ -338,4 +338,75 @@ theorem reachable_hinv (c0 c : Config) (h0 : HInv c0) (hr : Reachable c0 c) : HI
   | refl => exact h0
   | step c c' _ st ih => exact step_hinv c c' ih st
 
+theorem after_release (es : List Ev) (h1 : wellLockedFrom .none es = true) (h2 : singleSectionFrom true es = true) :
+    es = [] := by
+  cases es with
+  | nil => rfl
+  | cons e tl => cases e <;> simp_all [wellLockedFrom, singleSectionFrom]
+
+theorem section_w : ∀ (es : List Ev), wellLockedFrom .w es = true → singleSectionFrom false es = true →
+    ∃ body, es = body ++ [.unlock] ∧ body.all Ev.isAccess = true := by
+  intro es
+  induction es with
+  | nil => intro h; simp [wellLockedFrom] at h
+  | cons e tl ih =>
+    intro h1 h2
+    cases e with
+    | unlock =>
+      simp only [wellLockedFrom, singleSectionFrom] at h1 h2
+      exact ⟨[], by rw [after_release tl h1 h2]; rfl, rfl⟩
+    | read f =>
+      simp only [wellLockedFrom, singleSectionFrom] at h1 h2
+      obtain ⟨b, hb, ha⟩ := ih h1 h2
+      exact ⟨.read f :: b, by rw [hb]; rfl, by simp [Ev.isAccess, ha]⟩
+    | write f =>
+      simp only [wellLockedFrom, singleSectionFrom] at h1 h2
+      obtain ⟨b, hb, ha⟩ := ih h1 h2
+      exact ⟨.write f :: b, by rw [hb]; rfl, by simp [Ev.isAccess, ha]⟩
+    | lock => simp [wellLockedFrom] at h1
+    | rlock => simp [wellLockedFrom] at h1
+    | runlock => simp [wellLockedFrom] at h1
+
+theorem section_r : ∀ (es : List Ev), wellLockedFrom .r es = true → singleSectionFrom false es = true →
+    ∃ body, es = body ++ [.runlock] ∧ body.all Ev.isRead = true := by
+  intro es
+  induction es with
+  | nil => intro h; simp [wellLockedFrom] at h
+  | cons e tl ih =>
+    intro h1 h2
+    cases e with
+    | runlock =>
+      simp only [wellLockedFrom, singleSectionFrom] at h1 h2
+      exact ⟨[], by rw [after_release tl h1 h2]; rfl, rfl⟩
+    | read f =>
+      simp only [wellLockedFrom, singleSectionFrom] at h1 h2
+      obtain ⟨b, hb, ha⟩ := ih h1 h2
+      exact ⟨.read f :: b, by rw [hb]; rfl, by simp [Ev.isRead, ha]⟩
+    | write f => simp [wellLockedFrom] at h1
+    | lock => simp [wellLockedFrom] at h1
+    | rlock => simp [wellLockedFrom] at h1
+    | unlock => simp [wellLockedFrom] at h1
+
+/-- A well-locked single-section method path is empty, or one exclusive block of accesses, or one
+    shared block of reads — nothing before, between or after. -/
+theorem single_section_shape (es : List Ev) (h1 : wellLocked es = true) (h2 : singleSection es = true) :
+    es = [] ∨ (∃ body, es = .lock :: body ++ [.unlock] ∧ body.all Ev.isAccess = true) ∨
+    (∃ body, es = .rlock :: body ++ [.runlock] ∧ body.all Ev.isRead = true) := by
+  cases es with
+  | nil => exact .inl rfl
+  | cons e tl =>
+    right
+    cases e with
+    | lock =>
+      simp only [wellLocked, wellLockedFrom, singleSection, singleSectionFrom, Bool.not_false, Bool.true_and] at h1 h2
+      obtain ⟨b, hb, ha⟩ := section_w tl h1 h2
+      exact .inl ⟨b, by rw [hb]; rfl, ha⟩
+    | rlock =>
+      simp only [wellLocked, wellLockedFrom, singleSection, singleSectionFrom, Bool.not_false, Bool.true_and] at h1 h2
+      obtain ⟨b, hb, ha⟩ := section_r tl h1 h2
+      exact .inr ⟨b, by rw [hb]; rfl, ha⟩
+    | unlock => simp [wellLocked, wellLockedFrom] at h1
+    | runlock => simp [wellLocked, wellLockedFrom] at h1
+    | read f => simp [wellLocked, wellLockedFrom] at h1
+    | write f => simp [wellLocked, wellLockedFrom] at h1
 end Car.Locks
